@@ -282,6 +282,12 @@ def run(ctx):
         r = stale_name_history(ctx)
         ctx.stats["stream:stale_name:histories"] += 1
         check_history(ctx, r, "stale_name")
+    for _ in range(ctx.n(40, 600)):
+        r = H.Run(G.gen_init(ctx.rng, cfg), full=True)
+        if r.init_outcome == "ok":
+            G.mux_family(ctx.rng, r.apply)
+            ctx.stats["stream:mux_family:histories"] += 1
+            check_history(ctx, r, "mux_family")
     for fid in FINDING_STREAMS:
         for _ in range(ctx.n(3, 40)):
             r = trigger_history(ctx, fid)
